@@ -20,7 +20,7 @@ import traceback
 from fractions import Fraction
 from typing import Any, Dict, List, Optional
 
-from .c09_world import unit_factor, describe, POSCOLS
+from .c09_world import unit_factor, describe, POSCOLS, rows_token
 
 PLAIN = ("bool", "float", "text")
 IDENT_KINDS = ("time", "time_delta", "position", "posvel", "position_delta", "posvel_delta")
@@ -107,6 +107,7 @@ class RefWorld:
     def __init__(self):
         self.ds: Dict[int, RDS] = {}
         self.objs: List[RObj] = []
+        self.diff_info: Optional[dict] = None
 
     # ------------------------------------------------------------------ helpers
     def resolve(self, r):
@@ -139,6 +140,14 @@ class RefWorld:
             else:
                 yield f
 
+    @staticmethod
+    def columns(fields, prefix):
+        for name, f in fields.items():
+            if isinstance(f, RColl):
+                yield from RefWorld.columns(f.fields, prefix + name + ".")
+            else:
+                yield prefix + name, f
+
     def map_objects(self, fields, rowfn):
         """new field tree in which every reachable object is transformed once by rowfn"""
         memo: Dict[int, RObj] = {}
@@ -168,6 +177,8 @@ class RefWorld:
     # ------------------------------------------------------------------ operations
     def apply(self, op):
         self.empty_operand = False
+        self.diff_info = None
+        self.or_fields_used = False
         try:
             return "ok", self._apply(op)
         except Expected as e:
@@ -213,7 +224,11 @@ class RefWorld:
             self.subset(d, op)
             return "-"
         if o == "extend":
-            self.extend(d, self.ds[op["e"]])
+            e = self.ds[op["e"]]
+            plain = all(f.kind in PLAIN for t in (d, e) for f in self.leaves(t.fields))
+            self.extend(d, e)
+            if plain:
+                return "x" + "/".join(f"{n}={rows_token(f.obj.rows)}" for n, f in self.columns(d.fields, ""))
             return "-"
         if o == "merge":
             for e in op["es"]:
@@ -224,14 +239,35 @@ class RefWorld:
         if o == "filter":
             mask = [True] * d.n
             for p, v in op["filters"]:
-                col = self.key_column(d, p)
-                mask = [a and (x == v and x != "nan") for a, x in zip(mask, col)]
+                try:
+                    cols = [self.key_column(d, p)]
+                except Expected:
+                    # no such field: the fields `<name>_<suffix>` of the same collection stand in for it
+                    # (a row passes when any of them has the value)
+                    *init, last = p.split(".")
+                    cont = d.fields
+                    if init:
+                        c = self.find(d.fields, init)
+                        if not isinstance(c, RColl):
+                            raise
+                        cont = c.fields
+                    alts = [".".join(init + [nm]) for nm in cont if nm.startswith(last + "_")]
+                    if not alts:
+                        raise
+                    cols = [self.key_column(d, a) for a in alts]
+                    self.or_fields_used = True
+                hit = [any(c[i] == v and c[i] != "nan" for c in cols) for i in range(len(cols[0]))]
+                mask = [a and x for a, x in zip(mask, hit)]
             self.subset(d, {"mask": mask})
             return "m" + "".join("1" if b else "0" for b in mask)
         if o == "unique":
             col = self.key_column(d, op["path"])
             vals = sorted(set(col), key=key_of)
             return "v" + ",".join(vals)
+        if o == "diff":
+            self.ds[op["r"]] = self.difference(d, self.ds[op["e"]], op.get("index_by"), bool(op.get("cs")),
+                                               bool(op.get("co")))
+            return "-"
         raise AssertionError(o)
 
     def add(self, d, op):
@@ -393,6 +429,123 @@ class RefWorld:
         d.fields = ext_fields(d.fields, e.fields, n == 0)
         d.n = n + m
 
+    # ------------------------------------------------------------------ difference
+    def difference(self, d, e, index_by, copy_self, copy_other):
+        """The list-of-records statement of `self - other`:
+
+        * the records of the two tables are paired by the tuple of their index fields (first record of each table that
+          carries a key; keys in ascending order) or, without index fields, by position (same number of records);
+        * for every pair the result has one record; a column that exists in both tables (at any nesting depth) holds
+          `value in self - value in other * unit factor`, the index columns hold the value of self;
+        * columns that cannot be subtracted (bool, text, sigma) are dropped, or kept as `<name>_self` / `<name>_other`;
+        * a difference of epochs is a time delta, a difference of positions a position delta relative to the position
+          in self, a difference of position deltas keeps the reference position of self.
+        """
+        if index_by is None:
+            if d.n != e.n:
+                raise Expected("value")
+            pairs = [(i, i) for i in range(d.n)]
+            names = []
+        else:
+            names = [x.strip() for x in index_by.split(",")]
+            if any("." in x for x in names):
+                raise Skip("index field in a collection")
+            cols_a = [self.key_column(d, x) for x in names]
+            cols_b = [self.key_column(e, x) for x in names]
+            for cols in (cols_a, cols_b):
+                if any(tok == "nan" for c in cols for tok in c):
+                    raise Skip("NaN in an index field")
+            A = list(zip(*cols_a))
+            B = list(zip(*cols_b))
+            common = sorted(set(A) & set(B), key=lambda k: tuple(key_of(t) for t in k))
+            pairs = [(A.index(k), B.index(k)) for k in common]
+        info = self.diff_info = {"index_fields": len(names), "pairs": len(pairs)}
+        if index_by is not None:
+            info["duplicate_keys"] = len(set(A)) < len(A) or len(set(B)) < len(B)
+            info["one_sided_keys"] = set(A) != set(B)
+        info["other_order"] = any(i != j for i, j in pairs)
+        if not pairs:
+            raise Expected("value")
+        ia = [p[0] for p in pairs]
+        ib = [p[1] for p in pairs]
+        info.update(nested=0, dropped=0, factor=0, copied=0, not_subtractable=0, kinds=set())
+
+        def take(o, idx):
+            """the records `idx` of an object and of everything attached to it (nothing is shared with the source)"""
+            if o is None:
+                return None
+            return RObj(o.kind, o.ndim, o.cols, [list(o.rows[i]) for i in idx], take(o.other, idx), take(o.ref_pos, idx))
+
+        def sub_tok(x, y):
+            if x == "nan" or y == "nan":
+                return "nan"
+            q = Fraction(x[1:]) - Fraction(y[1:])
+            return "n" + (str(q.numerator) if q.denominator == 1 else f"{q.numerator}/{q.denominator}")
+
+        def diff_fields(sf, of, depth=0):
+            out: Dict[str, Any] = {}
+            info["dropped"] += len([x for x in of if x not in sf])
+            for name, f in sf.items():
+                g = of.get(name)
+                if g is None:
+                    info["dropped"] += 1
+                    continue
+                if isinstance(f, RColl) != isinstance(g, RColl):
+                    raise Expected("attribute")
+                if isinstance(f, RColl):
+                    info["nested"] = max(info["nested"], depth + 1)
+                    out[name] = RColl(name, f.level, diff_fields(f.fields, g.fields, depth + 1))
+                    continue
+                factors = None
+                if f.unit is not None and g.unit is not None:
+                    factors = []
+                    for to, fr in zip(f.unit, g.unit):
+                        q = unit_factor(fr, to)
+                        if q is None:
+                            raise Expected("value")
+                        factors.append(q)
+                if f.kind != g.kind:
+                    raise Skip("difference of fields of different types")
+                a, b = f.obj, g.obj
+                info["kinds"].add(f.kind + ("@nested" if depth else ""))
+                if factors and any(q != 1 for q in factors):
+                    info["factor"] += 1
+                if f.kind in ("bool", "text", "sigma"):
+                    info["not_subtractable"] += 1
+                    info["copied"] += int(copy_self) + int(copy_other)
+                    if copy_self:
+                        out[name + "_self"] = RLeaf(name + "_self", f.kind, take(a, ia), f.unit, f.level)
+                    if copy_other:
+                        out[name + "_other"] = RLeaf(name + "_other", g.kind, take(b, ib), g.unit, g.level)
+                    continue
+                if a.ndim != b.ndim or a.cols != b.cols or (factors and len(factors) != a.cols):
+                    raise Skip("difference of arrays of different shapes")
+                if f.kind == "time" and any(t == "nan" for o in (a, b) for r in o.rows for t in r):
+                    raise Skip("difference of epochs one of which is the empty epoch")
+                rows = []
+                for i, j in pairs:
+                    rb = b.rows[j]
+                    if factors:
+                        rb = [scale_tok(t, factors[c % len(factors)]) for c, t in enumerate(rb)]
+                    rows.append([sub_tok(x, y) for x, y in zip(a.rows[i], rb)])
+                kind = {"float": "float", "time": "time_delta", "time_delta": "time_delta", "position": "position_delta",
+                        "posvel": "posvel_delta", "position_delta": "position_delta", "posvel_delta": "posvel_delta"}[f.kind]
+                new = RObj(kind, a.ndim, a.cols, rows)
+                if f.kind in ("position", "posvel"):
+                    new.ref_pos = take(a, ia)
+                elif f.kind in ("position_delta", "posvel_delta"):
+                    new.ref_pos = take(a.ref_pos, ia)
+                out[name] = RLeaf(name, kind, new, f.unit, f.level)
+            return out
+
+        res = RDS(len(pairs))
+        res.fields = diff_fields(d.fields, e.fields)
+        for x in names:
+            f = d.fields[x]
+            res.fields.pop(x, None)
+            res.fields[x] = RLeaf(x, f.kind, take(f.obj, ia), f.unit, f.level)
+        return res
+
     # ------------------------------------------------------------------ structure for the comparison
     def struct(self):
         # objects are numbered per dataset: only the sharing *within* a dataset is part of the statement
@@ -535,6 +688,8 @@ def op_label(op):
     if o == "merge":
         # merging without sorting is a sequence of extends
         return "merge-sort" if op.get("sort_by") else "extend"
+    if o == "diff":
+        return "difference" + ("[index_by]" if op.get("index_by") else "[positional]")
     return o
 
 
@@ -559,13 +714,17 @@ def judge(ctx, op, concrete, status, out, exp_status, exp_out, rw, rf):
         return
     if exp_status == "err":
         ctx.count("oracle-expected-error:" + exp_out)
+        if op["op"] == "diff" and status == "ok":
+            # unequal lengths without index fields / no common record: there is no table to return
+            _violate(ctx, f"{lab}:no-error", f"{lab} returned a dataset where the table model has none ({exp_out} error "
+                     f"expected: unequal numbers of records without index fields, or no common record)", case)
         return
     if status != "ok":
         site = call_site(rw.last_exc) if rw.last_exc is not None else "?"
         _violate(ctx, f"{lab}:raises:{out}@{site}",
                     f"{lab} raised {type(rw.last_exc).__name__}: {rw.last_exc} where the table model has a result", case)
         return
-    d = diff_world(real_struct(rw), rf.struct(), op.get("d"))
+    d = diff_world(real_struct(rw), rf.struct(), op.get("r") if op["op"] == "diff" else op.get("d"))
     if d is not None:
         _violate(ctx, f"{lab}:{d[0]}@{d[1]}", f"after {lab}: {d[2]}", case)
         return
